@@ -1045,3 +1045,49 @@ Proof.
   apply andb_true_iff in H2sl. destruct H2sl as [H1 H2]. cbn [count_leading] in Hf. rewrite H1, H2 in Hf.
   replace (sl <? 2) with false by lia. reflexivity.
 Qed.
+
+(* the Standard's side of the two same-scheme path classes alone *)
+Lemma same_abs_s_spec shp input sb : in_class_same_abs_s sb input = true ->
+  exists t, spec_basic_url_parse shp input (Some sb) = BDone (rel_path_result_s sb [] t).
+Proof.
+  intros Hc. unfold in_class_same_abs_s in Hc.
+  apply andb_true_iff in Hc. destruct Hc as [Hb Hok].
+  destruct (sp_base_ok_facts sb Hb) as (Hop & Hsp & Hnf & h & Eh).
+  destruct (spec_scheme (spec_clean input)) as [[sch R0]|] eqn:Es; [|discriminate Hok].
+  destruct R0 as [|c t]; [discriminate Hok|].
+  apply andb_true_iff in Hok. destruct Hok as [Hok Hspok]. apply andb_true_iff in Hok. destruct Hok as [Hok Ht].
+  apply andb_true_iff in Hok. destruct Hok as [Esch Hc1]. apply list_eqb_spec in Esch. subst sch.
+  apply negb_true_iff in Ht.
+  assert (match t with c2 :: _ => is_sl c2 = false | [] => True end) as Ht' by (destruct t; [exact I | exact Ht]).
+  exists t. apply spec_parse_of_runs.
+  destruct (runs_scheme shp (spec_clean input) (Some sb) (su_scheme sb) (c :: t) (BDone (rel_path_result_s sb [] t)) Es)
+    as (pre & Hin & K). apply K.
+  apply (runs_scheme_colon_same shp _ sb Hsp Hnf pre (c :: t) _ Hin).
+  assert (spec_clean input = (pre ++ [58]) ++ c :: t) as Hin2 by (rewrite Hin, <- app_assoc; reflexivity).
+  apply (runs_sroa_relative shp _ sb (pre ++ [58]) (c :: t) _ Hin2).
+  { cbn [hd_error tl cis]. destruct t as [|c2 t2]; [apply andb_false_r|]. cbn [starts_with_cp].
+    unfold is_sl in Ht. apply orb_false_iff in Ht. destruct Ht as [-> _]. apply andb_false_r. }
+  exact (runs_rel_abs_g shp _ sb Hsp Hnf (pre ++ [58]) (set_scheme empty_url (su_scheme sb)) eq_refl c t Hin2 Hc1 Ht').
+Qed.
+
+Lemma same_path_s_spec shp input sb : in_class_same_path_s sb input = true ->
+  exists t, spec_basic_url_parse shp input (Some sb)
+            = BDone (rel_path_result_s sb (removelast (Whatwg.path_segments sb)) t).
+Proof.
+  intros Hc. unfold in_class_same_path_s in Hc.
+  apply andb_true_iff in Hc. destruct Hc as [Hb Hok].
+  destruct (sp_base_ok_facts sb Hb) as (Hop & Hsp & Hnf & h & Eh).
+  destruct (spec_scheme (spec_clean input)) as [[sch R0]|] eqn:Es; [|discriminate Hok].
+  destruct R0 as [|c t]; [discriminate Hok|].
+  apply andb_true_iff in Hok. destruct Hok as [Hok Hspok]. apply andb_true_iff in Hok. destruct Hok as [Hok E35].
+  apply andb_true_iff in Hok. destruct Hok as [Hok E63]. apply andb_true_iff in Hok. destruct Hok as [Esch Esl].
+  apply list_eqb_spec in Esch. subst sch. apply negb_true_iff in Esl, E63, E35.
+  exists (c :: t). apply spec_parse_of_runs.
+  destruct (runs_scheme shp (spec_clean input) (Some sb) (su_scheme sb) (c :: t)
+              (BDone (rel_path_result_s sb (removelast (Whatwg.path_segments sb)) (c :: t))) Es) as (pre & Hin & K). apply K.
+  apply (runs_scheme_colon_same shp _ sb Hsp Hnf pre (c :: t) _ Hin).
+  assert (spec_clean input = (pre ++ [58]) ++ c :: t) as Hin2 by (rewrite Hin, <- app_assoc; reflexivity).
+  apply (runs_sroa_relative shp _ sb (pre ++ [58]) (c :: t) _ Hin2).
+  { cbn [hd_error tl cis]. unfold is_sl in Esl. apply orb_false_iff in Esl. destruct Esl as [-> _]. reflexivity. }
+  exact (runs_rel_path_g shp _ sb Hop Hsp Hnf (pre ++ [58]) (set_scheme empty_url (su_scheme sb)) eq_refl c t Hin2 Esl E63 E35).
+Qed.
